@@ -151,7 +151,12 @@ def check(w, tier, t0):
         return any(signature(b) is None for b in vv["bad"])
     rc = verdict.finish(reproduce)
     follow = sum(1 for e in events if e["obs"]["drift"] == "")
-    cov = {"states": states, "transitions": trans, "traces_validated_against_impl": len(allrows),
+    distinct = {lib.case_hash([e["plan"], e["admin"], e["conns"], [(x["g"], x["a"]) for x in e["hist"]]]) for e in events}
+    samples = [{"plan": e["plan"], "admin": e["admin"], "pool": e["conns"], "schedule": " ".join("%s(%d)" % (x["a"], x["g"]) for x in e["hist"]), "results": e["obs"]["res"]}
+               for e in (events[0], events[len(events) // 2])]
+    cov = {"states": states, "transitions": trans, "traces_validated_against_impl": len(allrows), "samples": samples,
+           "evaluations": len(allrows), "distinct_nontrivial": len(distinct),
+           "rule": "one evaluation = one TLC-generated behaviour of PrepStmt.tla (goroutine plans text x direct/transaction x prepare ok/fail x use ok/ErrBadConn, Reset/Close at any point, pool of 1, 2 or unlimited connections) forced onto the real PreparedStmtDB step by step through gates at the instrumentation points, or one free-running storm of 2-8 goroutines; distinct = different (plans, admin, pool, schedule)",
            "schedules_replayed": len(events), "schedules_followed_by_code": follow, "storm_runs": len(srows), "race_detector": not quick,
            "steps_replayed": sum(len(e["hist"]) for e in events),
            "results_seen": sorted({x for e in events for x in e["obs"]["res"]} | {x for e in srows for x in e["res"]}),
